@@ -156,7 +156,8 @@ macro_rules! sealed_float {
                         dir: Ordering::Equal,
                         overflow: false,
                     };
-                    return FloatKind::Finite { neg, conv };
+                    // negative zero is zero, not a negative number
+                    return FloatKind::Finite { neg: false, conv };
                 }
 
                 // subnormals use the exponent of the smallest normals
